@@ -188,7 +188,13 @@ function genVersion (rng, fi, vi, kind, o) {
     const source = rng.pick(['../ts/orig.ts', `src/f${fi}.ts`, `f${fi}v${vi}.ts`])
     const source2 = `src/second_f${fi}.ts`
     const sourceRoot = rng.pick([undefined, '', 'root', 'root/'])
-    const m = { file: path.basename(o.file), sources: split ? [source, source2] : [source], names: [], toks }
+    // real maps repeat entries of `sources` (a bundle input listed twice): the tokens then use the later index
+    if (rng.chance(1, 4)) {
+      const shift = split ? 1 : 2
+      for (const t of toks) if (!split || t.src === 1) t.src += shift
+      var srcList = split ? [source, source, source2] : ['unused.ts', 'unused.ts', source]
+    }
+    const m = { file: path.basename(o.file), sources: srcList || (split ? [source, source2] : [source]), names: [], toks }
     if (sourceRoot !== undefined) m.sourceRoot = sourceRoot
     const json = encodeMap(m)
     const root = (x) => sourceRoot ? sourceRoot.replace(/\/$/, '') + '/' + x : x
